@@ -11,6 +11,12 @@ namespace CssVerif.Mutators
 @[simp] theorem St.mutate_ro (s : St) (f : Field) : (s.mutate f).readonly = s.readonly := by
   unfold St.mutate; split <;> rfl
 
+/-- what the abstract state says about the read-only flag -/
+def SoundRO (readonly nro isro : Bool) : Prop := (nro = true → readonly = false) ∧ (isro = true → readonly = true)
+
+theorem SoundRO.weaken {r n i n' i' : Bool} (h : SoundRO r n i) (hn : n' = true → n = true) (hi : i' = true → i = true) :
+    SoundRO r n' i' := ⟨fun x => h.1 (hn x), fun x => h.2 (hi x)⟩
+
 /-- the abstract state `a` describes the concrete state `s` relative to the entry state `s0` -/
 structure Sound (s0 s : St) (a : Abs) : Prop where
   clean : ∀ f ∈ a.clean, s.cur f = s0.cur f
@@ -18,7 +24,7 @@ structure Sound (s0 s : St) (a : Abs) : Prop where
   fresh : ∀ f ∈ a.fresh, s0.next ≤ s.cur f
   known : ∀ p ∈ a.known, s.flags p.1 = p.2
   next : s0.next ≤ s.next
-  nro : a.nro = true → s.readonly = false
+  ro : SoundRO s.readonly a.nro a.isro
 
 def Holds (s0 : St) (o : Option Abs) (s : St) : Prop := ∃ a, o = some a ∧ Sound s0 s a
 
@@ -38,7 +44,8 @@ theorem Sound.meet_left {s0 s : St} {a : Abs} (b : Abs) (h : Sound s0 s a) : Sou
   · intro f hf; exact h.valid f (List.mem_filter.mp hf).1
   · intro f hf; exact h.fresh f (List.mem_filter.mp hf).1
   · intro p hp; exact h.known p (List.mem_filter.mp hp).1
-  · intro hn; simp only [Abs.meet, Bool.and_eq_true] at hn; exact h.nro hn.1
+  · exact h.ro.weaken (fun x => by simp only [Abs.meet, Bool.and_eq_true] at x; exact x.1)
+      (fun x => by simp only [Abs.meet, Bool.and_eq_true] at x; exact x.1)
 
 theorem Sound.meet_right {s0 s : St} {b : Abs} (a : Abs) (h : Sound s0 s b) : Sound s0 s (a.meet b) := by
   refine ⟨?_, ?_, ?_, ?_, h.next, ?_⟩
@@ -46,23 +53,26 @@ theorem Sound.meet_right {s0 s : St} {b : Abs} (a : Abs) (h : Sound s0 s b) : So
   · intro f hf; exact h.valid f (by simpa using (List.mem_filter.mp hf).2)
   · intro f hf; exact h.fresh f (by simpa using (List.mem_filter.mp hf).2)
   · intro p hp; exact h.known p (by simpa using (List.mem_filter.mp hp).2)
-  · intro hn; simp only [Abs.meet, Bool.and_eq_true] at hn; exact h.nro hn.2
+  · exact h.ro.weaken (fun x => by simp only [Abs.meet, Bool.and_eq_true] at x; exact x.2)
+      (fun x => by simp only [Abs.meet, Bool.and_eq_true] at x; exact x.2)
 
 theorem Sound.of_le {s0 s : St} {i x : Abs} (hle : i.le x = true) (h : Sound s0 s x) : Sound s0 s i := by
   simp only [Abs.le, Bool.and_eq_true, List.all_eq_true, decide_eq_true_eq] at hle
-  obtain ⟨⟨⟨⟨h1, h2⟩, h3⟩, h4⟩, h5⟩ := hle
+  obtain ⟨⟨⟨⟨⟨h1, h2⟩, h3⟩, h4⟩, h5⟩, h6⟩ := hle
   refine ⟨fun f hf => h.clean f (h1 f hf), fun f hf => h.valid f (h2 f hf),
          fun f hf => h.fresh f (h3 f hf), fun p hp => h.known p (h4 p hp), h.next, ?_⟩
-  intro hn
-  apply h.nro
-  cases hx : x.nro
-  · simp [hn, hx] at h5
-  · rfl
+  apply h.ro.weaken
+  · intro hn; cases hx : x.nro
+    · simp [hn, hx] at h5
+    · rfl
+  · intro hn; cases hx : x.isro
+    · simp [hn, hx] at h6
+    · rfl
 
 theorem Sound.bot {s0 s : St} {a : Abs} (h : Sound s0 s a) : Sound s0 s Abs.bot :=
   ⟨fun _ hf => by simp [Abs.bot] at hf, fun _ hf => by simp [Abs.bot] at hf,
    fun _ hf => by simp [Abs.bot] at hf, fun _ hf => by simp [Abs.bot] at hf, h.next,
-   fun hn => by simp [Abs.bot] at hn⟩
+   ⟨fun hn => by simp [Abs.bot] at hn, fun hn => by simp [Abs.bot] at hn⟩⟩
 
 theorem Holds.omeet_left {s0 s : St} {o : Option Abs} (o' : Option Abs) (h : Holds s0 o s) :
     Holds s0 (omeet o o') s := by
@@ -93,7 +103,7 @@ variable {s0 s : St} {a : Abs}
 
 theorem sound_assign (f : Field) (h : Sound s0 s a) :
     Sound s0 (s.assign f) { a with clean := a.clean.filter (· ≠ f), fresh := f :: a.fresh } := by
-  refine ⟨?_, ?_, ?_, ?_, ?_, fun hn => by simpa using h.nro hn⟩
+  refine ⟨?_, ?_, ?_, ?_, ?_, by simpa using h.ro⟩
   · intro g hg
     have hg' := List.mem_filter.mp hg
     have hne : g ≠ f := by simpa using hg'.2
@@ -112,7 +122,7 @@ theorem sound_mutate (h0 : ∀ f, s0.cur f < s0.next) (f : Field) (h : Sound s0 
       { a with clean := a.clean.filter (· ≠ f),
                valid := if f ∈ a.fresh then a.valid else a.valid.filter (· ≠ f),
                fresh := f :: a.fresh } := by
-  refine ⟨?_, ?_, ?_, ?_, ?_, fun hn => by simpa using h.nro hn⟩
+  refine ⟨?_, ?_, ?_, ?_, ?_, by simpa using h.ro⟩
   · intro g hg
     have hg' := List.mem_filter.mp hg
     have hne : g ≠ f := by simpa using hg'.2
@@ -157,7 +167,7 @@ theorem sound_save (f : Field) (h : Sound s0 s a) :
   refine ⟨fun g hg => by simpa [St.setSaved] using h.clean g hg, ?_,
           fun g hg => by simpa [St.setSaved] using h.fresh g hg,
           fun p hp => by simpa [St.setSaved] using h.known p hp, by simpa [St.setSaved] using h.next,
-          fun hn => by simpa using h.nro hn⟩
+          by simpa using h.ro⟩
   intro g hg
   by_cases e : g = f
   · subst e
@@ -178,7 +188,7 @@ theorem sound_restore (f : Field) (h : Sound s0 s a) :
                fresh := a.fresh.filter (· ≠ f) } := by
   refine ⟨?_, fun g hg => by simpa [St.setCur] using h.valid g hg, ?_,
           fun p hp => by simpa [St.setCur] using h.known p hp, by simpa [St.setCur] using h.next,
-          fun hn => by simpa using h.nro hn⟩
+          by simpa using h.ro⟩
   · intro g hg
     by_cases e : g = f
     · subst e
@@ -200,7 +210,7 @@ theorem sound_restore (f : Field) (h : Sound s0 s a) :
 theorem sound_dropFlag (b : Flag) (v : Bool) (h : Sound s0 s a) : Sound s0 (s.setFlag b v) (a.dropFlag b) := by
   refine ⟨fun g hg => by simpa [St.setFlag] using h.clean g hg, fun g hg => by simpa [St.setFlag] using h.valid g hg,
           fun g hg => by simpa [St.setFlag] using h.fresh g hg, ?_, by simpa [St.setFlag] using h.next,
-          fun hn => by simpa [Abs.dropFlag] using h.nro hn⟩
+          by simpa [Abs.dropFlag] using h.ro⟩
   intro p hp
   have hp' := List.mem_filter.mp hp
   have hne : p.1 ≠ b := by simpa using hp'.2
@@ -208,7 +218,7 @@ theorem sound_dropFlag (b : Flag) (v : Bool) (h : Sound s0 s a) : Sound s0 (s.se
 
 theorem sound_setFlag (b : Flag) (v : Bool) (h : Sound s0 s a) : Sound s0 (s.setFlag b v) (a.setFlag b v) := by
   have hd := sound_dropFlag b v h
-  refine ⟨hd.clean, hd.valid, hd.fresh, ?_, hd.next, hd.nro⟩
+  refine ⟨hd.clean, hd.valid, hd.fresh, ?_, hd.next, hd.ro⟩
   intro p hp
   simp only [Abs.setFlag, List.mem_cons] at hp
   rcases hp with rfl | hp
@@ -322,23 +332,32 @@ theorem post_sound (s0 : St) (h0 : ∀ f, s0.cur f < s0.next) :
       | skip => simp only [run, post]; exact ⟨a, rfl, hs⟩
       | mark k =>
         simp only [run, post]
-        exact ⟨a, rfl, ⟨hs.clean, hs.valid, hs.fresh, hs.known, hs.next, hs.nro⟩⟩
+        exact ⟨a, rfl, ⟨hs.clean, hs.valid, hs.fresh, hs.known, hs.next, hs.ro⟩⟩
       | assign f => simp only [run, post]; exact ⟨_, rfl, sound_assign f hs⟩
       | mutate f => simp only [run, post]; exact ⟨_, rfl, sound_mutate h0 f hs⟩
       | save f => simp only [run, post]; exact ⟨_, rfl, sound_save f hs⟩
       | restore f => simp only [run, post]; exact ⟨_, rfl, sound_restore f hs⟩
       | guard =>
         simp only [run, post]
-        cases hn : a.nro with
+        cases hi : a.isro with
         | true =>
-          have := hs.nro hn
-          simp only [this]
+          have := hs.ro.2 hi
+          simp only [this, if_true]
           exact ⟨a, rfl, hs⟩
         | false =>
-          cases hr : s.readonly with
-          | true => exact ⟨a, rfl, hs⟩
+          simp only [Bool.false_eq_true, if_false]
+          cases hn : a.nro with
+          | true =>
+            have := hs.ro.1 hn
+            simp only [this, if_true]
+            exact ⟨a, rfl, hs⟩
           | false =>
-            exact ⟨_, rfl, ⟨hs.clean, hs.valid, hs.fresh, hs.known, hs.next, fun _ => hr⟩⟩
+            simp only [Bool.false_eq_true, if_false]
+            cases hr : s.readonly with
+            | true => exact ⟨a, rfl, hs⟩
+            | false =>
+              refine ⟨_, rfl, ⟨hs.clean, hs.valid, hs.fresh, hs.known, hs.next, ?_⟩⟩
+              exact ⟨fun _ => hr, fun x => by simp [hi] at x⟩
       | raise => simp only [run, post]; exact ⟨a, rfl, hs⟩
       | mayRaise =>
         simp only [run, post]
@@ -378,12 +397,12 @@ theorem post_sound (s0 : St) (h0 : ∀ f, s0.cur f < s0.next) :
         split
         · exact OK.join_left _ (ihn x s a _ hs)
         · exact OK.join_right _ (ihn y s a _ hs)
-      | loop body =>
+      | loop body els =>
         have key : ∀ i : Abs, invStable (post body) i = true →
             ∀ m, m ≤ n + 1 → ∀ s os, Sound s0 s i →
-              OK s0 (run m (.loop body) s os)
-                { norm := omeet (some i) (post body i).brk, ret := (post body i).ret,
-                  exc := (post body i).exc, roExc := (post body i).roExc } := by
+              OK s0 (run m (.loop body els) s os)
+                (Post.join { norm := (post body i).brk, ret := (post body i).ret,
+                             exc := (post body i).exc, roExc := (post body i).roExc } (post els i)) := by
           intro i hstab m
           induction m with
           | zero => intro _ s os _; rw [run_zero]; trivial
@@ -409,13 +428,15 @@ theorem post_sound (s0 : St) (h0 : ∀ f, s0.cur f < s0.next) :
               case brk =>
                 rcases hb with hb | hb
                 · cases hb
-                · exact Holds.omeet_right _ hb
+                · apply OK.join_left
+                  exact hb
               all_goals
+                apply OK.join_left
                 rw [OK_iff]; right; rw [hx]
                 rcases hb with hb | hb
                 · cases hb
                 · exact hb
-            · exact Holds.omeet_left _ ⟨i, rfl, hsi⟩
+            · exact OK.join_right _ (ih m (by omega) els s i _ hsi)
         simp only [post]
         split
         · rename_i hc
